@@ -9,16 +9,31 @@
    warm   the epoch fact "the documented minimum amount of data of the current epoch has been
           seen" - supplied by the refining module (burn_in, n_threshold, windows, schedule ...) *)
 EXTENDS Integers
-VARIABLES ltab     \* the per-detector table (never changes): [restart, incs, hasrecs, epochbound, refrestart]
+VARIABLES
+  \* the per-detector table (never changes): [restart, incs, hasrecs, epochbound, refrestart]
+  \* (the type annotations are read by Apalache - module Apa_Lifecycle - and ignored by TLC)
+  \* @type: {restart: Int, incs: Set(Int), hasrecs: Bool, epochbound: Bool, refrestart: Bool};
+  ltab
 RestartTo  == ltab.restart     \* value `since` takes on the update that follows a drift (1; PCACD 0; HDM detect_batch=1: 2)
 Incs       == ltab.incs        \* admissible increments of `total` per accepted update ({1}; HDM detect_batch=1: {1,2})
 HasRecs    == ltab.hasrecs     \* detector exposes retraining_recs
 EpochBound == ltab.epochbound  \* recs of an epoch never reach back before the epoch (all but ADWIN, whose window survives)
 RefRestart == ltab.refrestart  \* the update completing a reference window restarts `since` at 0 (kdq-tree detectors only)
-VARIABLES total, since, state, recs, warm
+VARIABLES
+  \* @type: Int;
+  total,
+  \* @type: Int;
+  since,
+  \* @type: Str;
+  state,
+  \* @type: <<Int, Int>>;
+  recs,
+  \* @type: Bool;
+  warm
 lcvars == <<ltab, total, since, state, recs, warm>>
 
 States == {"None", "warning", "drift"}
+\* @type: <<Int, Int>>;
 NoRecs == <<-1, -1>>
 
 TypeOK == /\ state \in States
@@ -55,9 +70,12 @@ Accepted ==
 (* the call is refused (exception): nothing observable changes *)
 Rejected == UNCHANGED lcvars
 
+(* what a restart WITHOUT an update re-processes: nothing, or (HDM detect_batch=1, reference present) the proxy batch split off the
+   reference, which is counted in both counters at once *)
+Reprocessed == {0} \cup {k \in {RestartTo - 1} : k >= 0 /\ k + 1 \in Incs}
 (* user called reset() *)
-UserReset == /\ ltab' = ltab /\ since' \in {0, RestartTo - 1} /\ state' = "None"
-             /\ (\E inc \in {0} \cup {i - 1 : i \in Incs} : total' = total + inc)     \* HDM detect_batch=1 re-processes its proxy batch
+UserReset == /\ ltab' = ltab /\ state' = "None"
+             /\ (\E k \in Reprocessed : since' = k /\ total' = total + k)
              /\ recs' = (IF HasRecs THEN NoRecs ELSE recs) /\ warm' \in BOOLEAN
 
 (* kdq-tree detectors: the update that completes the reference window (streaming) or is itself used as
@@ -65,10 +83,11 @@ UserReset == /\ ltab' = ltab /\ since' \in {0, RestartTo - 1} /\ state' = "None"
 AcceptedRefComplete == /\ ltab' = ltab /\ RefRestart /\ total' = total + 1 /\ since' = 0 /\ state' = "None"
                        /\ recs' = recs /\ warm' \in BOOLEAN
 (* set_reference on a batch detector: a new epoch starts, nothing is counted *)
-SetReference == /\ ltab' = ltab /\ since' \in {0, RestartTo - 1, since}
+SetReference == /\ ltab' = ltab
+                /\ \/ \E k \in Reprocessed : since' = k /\ total' = total + k
+                   \/ since' = since /\ total' = total
                 /\ state' \in {"None", state}      \* (NNDVI keeps a reported drift visible until the next update)
                 /\ warm' \in BOOLEAN /\ recs' = recs
-                /\ \E inc \in {0} \cup {i - 1 : i \in Incs} : total' = total + inc
 
 Next == Accepted \/ Rejected \/ UserReset \/ AcceptedRefComplete \/ SetReference
 Spec == Init /\ [][Next]_lcvars
